@@ -117,6 +117,13 @@ CHECKS["C13"] = dict(
    note="Reference-free. Not generated: comments inside rule objects, blanks inside empty brackets.",
    design="4/C13")
 
+CHECKS["C07"] = dict(
+   category="exploration", engine="B exhaustive strings + bounded-deviation corpus edits + E construction-site enumeration; isolated memory-capped processes",
+   technique="exhaustive enumeration of all short inputs and all 1-edit neighbours of a corpus through every public method; go/parser enumeration of every error construction site; process-level crash detection",
+   text="Every string of <= 4 (thorough 5) symbols over a 26-symbol schema alphabet in each role (schema, user type under 3 roots, enum rule, regex type, document in 2 modes and under 4 schemas) through every public method on fresh objects and in sequence; every truncation and every single-byte deletion, insertion and substitution at every offset of all corpus files (repository testdata + generator outputs); huge-exponent numerals, deep nesting and megabyte inputs in isolated processes under a 2.5 GB cap; every errors.Format call site and every template row executed. No call may panic, kill the process or hang; every error must expose ErrCode()+Message(), a Position() inside the source it names, and render without panicking.",
+   note="Not asserted: API misuse that is not input-driven. Known findings: infinite-recursion error is a bare Errorf (text pinned by a repository test); huge exponents are expanded into memory (OOM).",
+   design="4/C07")
+
 NOT_YET = {
 }
 
